@@ -2,6 +2,7 @@ package vc
 
 import (
 	"bytes"
+	"regexp"
 	"context"
 	"crypto/sha256"
 	"encoding/hex"
@@ -55,6 +56,9 @@ func runSolver(sd solverDef, query string, timeoutSec int, seed int, wantModel b
 	ctx, cancel := context.WithTimeout(context.Background(), time.Duration(timeoutSec+5)*time.Second)
 	defer cancel()
 	cmd := exec.CommandContext(ctx, args[0], args[1:]...)
+	if strings.HasPrefix(sd.name, "cvc5") && strings.Contains(query, ";zarr ") {
+		query = zarrRe.ReplaceAllString(query, "(assert (forall ((i $2)) (! (= (select $1 i) $3) :pattern ((select $1 i)))))")
+	}
 	text := sd.pre + query + "(check-sat)\n"
 	if wantModel {
 		text += "(get-model)\n"
@@ -274,3 +278,5 @@ func ModelValue(model string, name string) string {
 	}
 	return "?"
 }
+
+var zarrRe = regexp.MustCompile(`(?m)^\(assert \(= (zarr_\S+) .*\)\)\) ;zarr (\S+) (.*)$`)
